@@ -33,9 +33,51 @@ fn fsx_pass(prop: &'static str, tier: Tier, seed: u64, cases: u64) -> Outcome {
     out
 }
 
+/// Additional stage of every file-system / SD check: byte strings decoded structurally
+/// (the decoders of the libFuzzer targets) into cases and run under the same oracle.
+/// Returns the engine name of the failing case, if any.
+fn byte_stage(prop: &'static str, tier: Tier, seed: u64, out: &mut Outcome) -> Option<&'static str> {
+    use proptest::prelude::*;
+    if out.violation.is_some() {
+        return None;
+    }
+    let heavy = matches!(prop, "C09" | "C10" | "C11");
+    let n = env_cases(0).max(0);
+    let cases = if n > 0 { n / 8 + 1 } else if heavy { tier.pick(150, 20_000) } else { tier.pick(1_500, 300_000) };
+    let tag = format!("{}-bytes", prop);
+    let o = runner::run_parallel(
+        &tag,
+        seed,
+        cases,
+        || prop::collection::vec(any::<u8>(), 16..1600).boxed(),
+        |data: &Vec<u8>, a: &mut Acc| {
+            a.class("byte-decoded-cases");
+            fuzzing::check_bytes(prop, data, a).map_err(|(f, _, _)| f)
+        },
+    );
+    out.wall_s += o.wall_s;
+    out.acc.merge(o.acc);
+    if let Some((f, bytes)) = o.violation {
+        let data: Vec<u8> = serde_json::from_value(bytes).unwrap_or_default();
+        let mut scratch = Acc::default();
+        return match fuzzing::check_bytes(prop, &data, &mut scratch) {
+            Err((f2, engine, case)) => {
+                out.violation = Some((f2, case));
+                Some(engine)
+            }
+            Ok(()) => {
+                out.violation = Some((f, serde_json::json!({ "raw_fuzz_input": data })));
+                Some("bytes")
+            }
+        };
+    }
+    None
+}
+
 fn run_fsx(prop: &'static str, tier: Tier, level: &'static str) -> i32 {
     let seed = env_seed();
-    let out = fsx_pass(prop, tier, seed, env_cases(fsx::quick_cases(prop, tier)));
+    let mut out = fsx_pass(prop, tier, seed, env_cases(fsx::quick_cases(prop, tier)));
+    let engine = byte_stage(prop, tier, seed, &mut out).unwrap_or("fsx");
     let ev = EvidenceIn {
         prop,
         tier,
@@ -46,7 +88,7 @@ fn run_fsx(prop: &'static str, tier: Tier, level: &'static str) -> i32 {
         assumptions: FS_ASSUMPTIONS.iter().map(|s| s.to_string()).collect(),
         extra: json!({}),
     };
-    runner::finish("fsx", &out, &ev)
+    runner::finish(engine, &out, &ev)
 }
 
 fn dir_pass(prop: &'static str, seed: u64, cases: u64, c06: bool, c17: bool) -> Outcome {
@@ -90,6 +132,7 @@ fn run_crash(prop: &'static str, tier: Tier) -> i32 {
         runner::run_parallel(prop, seed, cases, || fsx::strategy(&cfg), |c: &Case, a| crash::run_case(&cfg, c, a, &known, false, thorough))
     };
     out.acc.merge(pre);
+    let engine = byte_stage(prop, tier, seed, &mut out).unwrap_or("crash");
     let rule = if prop == "C09" {
         "generated histories with flush/close followed by other activity; for every successful flush/close of a file, every prefix of the later block-write sequence (until the file itself is next written, truncated or deleted) is materialised and the file is read by the independent reader (all prefixes) and by a fresh mount (every 4th prefix; all in thorough). evaluations = histories + (snapshot, prefix) pairs; non-trivial pair = a later write in the window hits the FAT or a directory/data block; distinct by (geometry, path length, size class, distance)"
     } else {
@@ -108,7 +151,7 @@ fn run_crash(prop: &'static str, tier: Tier) -> i32 {
         ],
         extra: json!({}),
     };
-    runner::finish("crash", &out, &ev)
+    runner::finish(engine, &out, &ev)
 }
 
 fn run_c11(tier: Tier) -> i32 {
@@ -126,6 +169,7 @@ fn run_c11(tier: Tier) -> i32 {
         runner::run_parallel("C11", seed, cases, || fsx::strategy(&cfg), |c: &Case, a| faults::run_case(c, a, &known, false, thorough))
     };
     out.acc.merge(pre);
+    let engine = byte_stage("C11", tier, seed, &mut out).unwrap_or("faults");
     let ev = EvidenceIn {
         prop: "C11",
         tier,
@@ -139,7 +183,7 @@ fn run_c11(tier: Tier) -> i32 {
         ],
         extra: json!({}),
     };
-    runner::finish("faults", &out, &ev)
+    runner::finish(engine, &out, &ev)
 }
 
 fn run_c15(tier: Tier) -> i32 {
@@ -168,6 +212,7 @@ fn run_c15(tier: Tier) -> i32 {
         out.violation = o.violation;
     }
     out.wall_s = t0.elapsed().as_secs_f64();
+    let engine = byte_stage("C15", tier, seed, &mut out).unwrap_or("mount");
     let ev = EvidenceIn {
         prop: "C15",
         tier,
@@ -178,7 +223,7 @@ fn run_c15(tier: Tier) -> i32 {
         assumptions: vec!["overflow and debug assertions are enabled in the build, so wrapping arithmetic on untrusted fields shows as a panic".into(), "device reads beyond the end of the device return Err, which is a legal outcome".into()],
         extra: json!({}),
     };
-    runner::finish("mount", &out, &ev)
+    runner::finish(engine, &out, &ev)
 }
 
 fn run_sd(prop: &'static str, tier: Tier) -> i32 {
@@ -214,6 +259,7 @@ fn run_sd(prop: &'static str, tier: Tier) -> i32 {
         out.violation = o.violation;
     }
     out.wall_s = t0.elapsed().as_secs_f64();
+    let engine = byte_stage(prop, tier, seed, &mut out).unwrap_or("sdsim");
     let (level, rule): (&str, &str) = match prop {
         "C12" => ("exploration", "card kind (v1 SC, v2 SC, HC) x CRC on/off x capacity (boundary C_SIZE / multiplier / READ_BL_LEN values) x timings (Ncr 0-8, data-token delay, busy periods, idle polls, ignored CMD0s) x 1-40 BlockDevice calls (read/write of 1, 2-8, 64 blocks at block numbers 0, 1, last, last-n, 2^k, 2^k-1, >= 2^23, random; read-back; num_blocks/num_bytes/get_card_type; mark_card_uninit) against a simulated card written from the SD specification. Oracle: model of the card memory compared everywhere after every call, and the same sequence with every n-block transfer done as n single transfers. non-trivial = contains a multi-block transfer and a read-back of a written block; distinct by (kind, crc, call-kind sequence, Ncr)"),
         "C14" => ("exploration", "the same generated runs as C12; every MOSI byte is checked by the card's protocol monitor (frame bits, CRC-7, busy, CMD55 prefix, identification order, data tokens, 512+2 framing with CRC-16 when on, CMD12 / stop token). non-trivial = run contains a multi-block write and a re-initialisation; distinct by (kind, crc, command sequence on the bus)"),
@@ -232,7 +278,7 @@ fn run_sd(prop: &'static str, tier: Tier) -> i32 {
         ],
         extra: json!({}),
     };
-    runner::finish("sdsim", &out, &ev)
+    runner::finish(engine, &out, &ev)
 }
 
 fn run_c06(tier: Tier) -> i32 {
@@ -247,6 +293,9 @@ fn run_c06(tier: Tier) -> i32 {
             out.violation = o2.violation;
             engine = "fsx";
         }
+    }
+    if let Some(e) = byte_stage("C06", tier, seed, &mut out) {
+        engine = e;
     }
     let ev = EvidenceIn {
         prop: "C06",
@@ -314,6 +363,9 @@ fn run_c17(tier: Tier) -> i32 {
         }
     }
     out.wall_s = t0.elapsed().as_secs_f64();
+    if let Some(e) = byte_stage("C17", tier, seed, &mut out) {
+        engine = e;
+    }
     let ev = EvidenceIn {
         prop: "C17",
         tier,
@@ -396,9 +448,28 @@ fn replay(path: &str) -> i32 {
 fn main() {
     let args: Vec<String> = std::env::args().collect();
     runner::install_quiet_panic_hook();
+    runner::start_watchdog(std::env::var("VERIF_STALL_S").ok().and_then(|s| s.parse().ok()).unwrap_or(300));
     let code = match args.get(1).map(|s| s.as_str()) {
         Some("selftest") => selftest::run(600),
         Some("replay") => replay(&args[2]),
+        Some("fuzzone") => {
+            // run one raw fuzz input through the byte decoder + oracle of a property: fuzzone <prop> <file>
+            let data = std::fs::read(&args[3]).expect("cannot read input");
+            let prop: &'static str = Box::leak(args[2].clone().into_boxed_str());
+            let mut acc = Acc::default();
+            match fuzzing::check_bytes(prop, &data, &mut acc) {
+                Ok(()) => {
+                    println!("input handled without violation");
+                    0
+                }
+                Err((f, engine, case)) => {
+                    let path = runner::write_replay(prop, engine, &f, &case);
+                    println!("{}: {}", f.sig, f.detail);
+                    println!("VIOLATION property={} replay={}", prop, path);
+                    1
+                }
+            }
+        }
         Some("check") => {
             let prop = args[2].as_str();
             let tier = match std::env::var("VERIF_TIER").ok().as_deref().or(args.get(3).map(|s| s.as_str())) {
